@@ -12,8 +12,8 @@ CHECK = {
            'a state is the concrete registry layout plus the shadow ledger; distinct_nontrivial = states with at least one displaced registry entry; '
            'ladders take the registry through sizes 53..389 with colliding strides'),
   'bounds': {
-    'quick': '4 arena addresses to fixpoint and 5 addresses (two of them wrapping) to depth 8 (gcc), 3 under ASan; ladders to 250 objects x 6 strides x 3 delete orders x 3 root patterns',
-    'thorough': '5 arena addresses to fixpoint, 6 addresses under a global deadline of 14 min (the evidence says whether the fixpoint was reached), 4 under ASan to fixpoint; ladders to 300 objects',
+    'quick': '4 arena addresses to fixpoint and 5 addresses (two of them wrapping) to depth 8 (gcc), 3 under ASan; ladders to 250 objects x 6 strides x 3 delete orders x 3 root patterns; *-sfx1 instances: the same alphabet with the last operation of the history in the state key (small universes)',
+    'thorough': '5 arena addresses to fixpoint, 6 addresses under a global deadline of 14 min (the evidence says whether the fixpoint was reached), 4 under ASan to fixpoint; ladders to 300 objects; *-sfx1 / *-sfx2 instances: the last one / two operations of the history in the state key',
   },
   'assumptions': [
     'reclamation is observed through the destructor ledger, never predicted (conservative collection may retain)',
@@ -22,6 +22,8 @@ CHECK = {
   ],
   'instances': {
     'quick': [
+      # history suffix in the state key (lib/vf_bfs.h suffix=K): the last K operations keep histories apart that end in one visible state
+      G('addr3-sfx1', 'base', 'naddr=3', 'suffix=1'), G('addr4-sfx1-d7', 'base', 'naddr=4', 'suffix=1', 'depth=7'),
       G('addr4', 'base', 'naddr=4'),
       G('addr5-d8', 'base', 'naddr=5', 'depth=8'),
       G('addr3-asan', 'asan', 'naddr=3'),
@@ -30,6 +32,8 @@ CHECK = {
       G('ladder-asan', 'asan', 'mode=ladder', 'ladder_n=120'),
     ],
     'thorough': [
+      # history suffix in the state key (lib/vf_bfs.h suffix=K): the last K operations keep histories apart that end in one visible state
+      G('addr4-sfx1', 'base', 'naddr=4', 'suffix=1'), G('addr5-sfx1-d9', 'base', 'naddr=5', 'suffix=1', 'depth=9'), G('addr3-sfx2', 'base', 'naddr=3', 'suffix=2'),
       G('addr5', 'base', 'naddr=5'),
       G('addr6', 'base', 'naddr=6', 'deadline=840'),
       G('addr4-asan', 'asan', 'naddr=4'),
